@@ -267,11 +267,12 @@ Fixpoint stat_ok (fuel : nat) (s : st) (p : path) : bool :=
   end.
 Definition stat_fuel : nat := 40.
 
-(* the Readlink loop of copyOutSymlink; None = it does not terminate *)
+(* the Readlink loop of copyOutSymlink: at most [fuel] links are followed,
+   then the loop stops where it is (maxLinks in the source) *)
 Fixpoint chase (fuel : nat) (s : st) (p : option path) (ap : path)
   : option (option path * bytes) :=
   match fuel with
-  | O => None
+  | O => Some (p, render ap)
   | S f =>
       match lk s ap with
       | Some (NLink rp) =>
@@ -280,7 +281,7 @@ Fixpoint chase (fuel : nat) (s : st) (p : option path) (ap : path)
       | _ => Some (p, render ap)
       end
   end.
-Definition chase_fuel : nat := 64.
+Definition chase_fuel : nat := N.to_nat max_links.
 
 Section Move.
   (* the pipestance directory, and the outs directory below it *)
